@@ -267,6 +267,7 @@ func init() {
 			}
 			res.count("history_pairs", 1)
 		}
+		orderTies(res, "C06")
 		// across processes
 		if *bin != "" {
 			pr := &ppRunner{bin: *bin, cache: map[string]ppOut{}, env: append(os.Environ(), "GOTRACEBACK=all", "TERM=dumb", "GOPATH="+gp)}
